@@ -4,8 +4,8 @@ import (
 	"testing"
 
 	"github.com/0chain/common/core/util"
-	"pgregory.net/rapid"
 	_ "github.com/anishathalye/porcupine"
+	"pgregory.net/rapid"
 )
 
 func TestBuild(t *testing.T) {
